@@ -8,6 +8,7 @@
    ch = the client hello, sh = the server hello of THIS transfer:
    client_hello uid port / server_hello uid port, getHelloConstant of the source. *)
 From Trzsz Require Import Base.Bytes Gen.Consts Gen.Skel_tunnel Model.TunnelSkel Model.Tunnel Proofs.Tunnel.
+From Trzsz Require Import Gen.Skel_rtunnel Model.TunnelRelaySkel Model.TunnelRelay Proofs.TunnelRelay.
 From Coq Require Import ZArith.
 
 Section Server.
@@ -191,4 +192,271 @@ Example C17_nonvacuous_client :
   client_decides ex_uid ex_port (CoConn true false (Some ex_sh)) = Some false /\
   client_decides ex_uid ex_port (CoConn false true None) = Some false /\
   client_decides ex_uid ex_port CoNil = Some false.
+Proof. vm_compute. repeat split. Qed.
+
+(* ==================================================================================== *)
+(* WITH A RELAY IN THE PATH: the relay's own tunnel code (relay.go: listenForTunnel, acceptOnTunnel,
+   handleTunnelConn, newTunnelRelay, tunnelRelay.wrapInput / wrapOutput, resetToStandby), the second
+   interleaving model Model/TunnelRelay.v.  Every statement is about EVERY reachable state: every schedule
+   of the acceptor, the handlers, the four goroutines of every bridge, resets, the relay's own sends, and
+   every number and behaviour of connecting clients and of the connections the connector returns.
+
+   ch1 / sh4 = hellos for (id, RELAY port): what a client must present / is answered;
+   ch2 / sh3 = hellos for (id, SERVER port): what the relay presents to / must hear from the server. *)
+
+Section Relay.
+Variables (uid : list N) (sport rport : Z).
+Let ch1 := client_hello uid rport.
+Let sh4 := server_hello uid rport.
+Let ch2 := client_hello uid sport.
+Let sh3 := server_hello uid sport.
+
+(* a client connection is bridged to the server only if its single first read was exactly the hello for
+   (id, relay port) AND the server's single answer was exactly the hello for (id, server port), after the relay
+   had presented it exactly the hello for (id, server port); the client was answered only after that; and
+   what each end has been sent is its hello followed by exactly what its writer goroutine took from its
+   channel *)
+Theorem C17_relay_adopted_authenticated : forall s c p, rt_reach ch1 sh4 ch2 sh3 s ->
+  nth_error (r_pairs s) c = Some p ->
+  r_trelay s = Some c \/ p_won p <> None \/ p_br p <> None ->
+  p_first p = Some ch1 /\ p_sfirst p = Some sh3 /\
+  exists e b, p_srv p = Some e /\ p_br p = Some b /\
+    e_tx e = ch2 ++ rt_payload (h_log (b_in b)) /\ e_tx (p_cli p) = sh4 ++ rt_payload (h_log (b_out b)).
+Proof. exact (rt_adopted_authenticated ch1 sh4 ch2 sh3). Qed.
+
+Theorem C17_relay_adopted_exists : forall s c, rt_reach ch1 sh4 ch2 sh3 s -> r_trelay s = Some c ->
+  exists p, nth_error (r_pairs s) c = Some p.
+Proof. exact (rt_adopted_exists ch1 sh4 ch2 sh3). Qed.
+
+(* at most one bridge is adopted: tunnelRelay holds pair c exactly when c won the compare-and-swap since the
+   last reset; two pairs that won in the same era (between two resets) are the same pair; and the cell
+   changes only by a reset *)
+Theorem C17_relay_current_adopted : forall s c p, rt_reach ch1 sh4 ch2 sh3 s -> nth_error (r_pairs s) c = Some p ->
+  (r_trelay s = Some c <-> p_won p = Some (r_era s)).
+Proof. exact (rt_current_adopted ch1 sh4 ch2 sh3). Qed.
+
+Theorem C17_relay_at_most_one : forall s c1 c2 p1 p2 e, rt_reach ch1 sh4 ch2 sh3 s ->
+  nth_error (r_pairs s) c1 = Some p1 -> nth_error (r_pairs s) c2 = Some p2 ->
+  p_won p1 = Some e -> p_won p2 = Some e -> c1 = c2.
+Proof. exact (rt_at_most_one ch1 sh4 ch2 sh3). Qed.
+
+Theorem C17_relay_adoption_stable : forall ls s s' c, rt_run ch1 sh4 ch2 sh3 s ls = Some s' ->
+  forallb (fun l => negb (rt_is_reset l)) ls = true -> r_trelay s = Some c -> r_trelay s' = Some c.
+Proof. exact (rt_adoption_stable ch1 sh4 ch2 sh3). Qed.
+
+(* an unauthenticated client gets no byte: anything but the hello (or nothing yet, or a failed read) — nothing
+   was written to it, the connector was not even called on its behalf, no bridge, not adopted; closed when
+   the handler is done; and the handler's very next statement is that close *)
+Theorem C17_relay_unauth_client : forall s c p, rt_reach ch1 sh4 ch2 sh3 s -> nth_error (r_pairs s) c = Some p ->
+  p_first p <> Some ch1 ->
+  e_tx (p_cli p) = [] /\ p_srv p = None /\ p_br p = None /\ p_won p = None /\ r_trelay s <> Some c /\
+  (forall o, p_pc p = RtDone o -> e_closed (p_cli p) = true).
+Proof. exact (rt_unauth_client ch1 sh4 ch2 sh3). Qed.
+
+Theorem C17_relay_unauth_client_next : forall s c p r dial fail, rt_reach ch1 sh4 ch2 sh3 s ->
+  nth_error (r_pairs s) c = Some p -> p_pc p = RtCmp r -> r <> Some ch1 ->
+  exists s' p', rt_step ch1 sh4 ch2 sh3 s (RLHandler c dial fail) = Some s' /\ nth_error (r_pairs s') c = Some p' /\
+    p_pc p' = RtDone RoBadClient /\ e_closed (p_cli p') = true /\ e_tx (p_cli p') = [] /\ p_srv p' = None.
+Proof. exact (rt_unauth_client_next ch1 sh4 ch2 sh3). Qed.
+
+(* the server side is authenticated too: as long as the connection the connector returned has not answered
+   exactly its hello, the CLIENT has been sent nothing (the relay answers the client only after the server
+   answered), there is no bridge, and that connection has been sent at most the relay's hello; both are
+   closed when the handler is done, by its very next statement *)
+Theorem C17_relay_unauth_server : forall s c p, rt_reach ch1 sh4 ch2 sh3 s -> nth_error (r_pairs s) c = Some p ->
+  p_sfirst p <> Some sh3 ->
+  e_tx (p_cli p) = [] /\ p_br p = None /\ p_won p = None /\ r_trelay s <> Some c /\
+  (forall e, p_srv p = Some e -> e_tx e = [] \/ e_tx e = ch2) /\
+  (forall o, p_pc p = RtDone o -> e_closed (p_cli p) = true /\ (forall e, p_srv p = Some e -> e_closed e = true)).
+Proof. exact (rt_unauth_server ch1 sh4 ch2 sh3). Qed.
+
+Theorem C17_relay_unauth_server_next : forall s c p r dial fail, rt_reach ch1 sh4 ch2 sh3 s ->
+  nth_error (r_pairs s) c = Some p -> p_pc p = RtCmpSrv r -> r <> Some sh3 ->
+  exists s' p' e', rt_step ch1 sh4 ch2 sh3 s (RLHandler c dial fail) = Some s' /\ nth_error (r_pairs s') c = Some p' /\
+    p_pc p' = RtDone RoBadServer /\ e_closed (p_cli p') = true /\ e_tx (p_cli p') = [] /\
+    p_srv p' = Some e' /\ e_closed e' = true /\ e_tx e' = ch2.
+Proof. exact (rt_unauth_server_next ch1 sh4 ch2 sh3). Qed.
+
+(* bytes cross a bridge only between the pair it belongs to: every chunk in a channel of pair c, and every
+   chunk one of its writers wrote, was read from pair c's own other connection by pair c's own pump, or was
+   sent by the relay itself; and only a pair that won the swap ever has a chunk, a pump or the relay
+   back-pointer *)
+Theorem C17_relay_bridge_bytes : forall s c p b d x, rt_reach ch1 sh4 ch2 sh3 s ->
+  nth_error (r_pairs s) c = Some p -> p_br p = Some b ->
+  In x (h_chan (rt_half_of d b)) \/ In x (h_log (rt_half_of d b)) ->
+  (fst x = rt_tag d c \/ fst x = RsRelay) /\ p_won p <> None.
+Proof. exact (rt_bridge_bytes ch1 sh4 ch2 sh3). Qed.
+
+Theorem C17_relay_pumps_only_adopted : forall s c p b d, rt_reach ch1 sh4 ch2 sh3 s ->
+  nth_error (r_pairs s) c = Some p -> p_br p = Some b ->
+  h_pump (rt_half_of d b) <> PmNone \/ b_relay b = true -> p_won p <> None.
+Proof. exact (rt_pumps_only_adopted ch1 sh4 ch2 sh3). Qed.
+
+Theorem C17_relay_parked_from_adopted : forall s x, rt_reach ch1 sh4 ch2 sh3 s -> In x (r_parked s) ->
+  exists c p, (fst x = RsCli c \/ fst x = RsSrv c) /\ nth_error (r_pairs s) c = Some p /\ p_won p <> None.
+Proof. exact (rt_parked_from_adopted ch1 sh4 ch2 sh3). Qed.
+
+(* the relay's own sends (flushHandshakeBuffer, sendStringToClient / ToServer) go into a bridge only while
+   tunnelRelay holds a pair — an authenticated one — and tunnelConnected is set; otherwise in-band *)
+Theorem C17_relay_inject_only_adopted : forall s d bs s', rt_reach ch1 sh4 ch2 sh3 s ->
+  rt_step ch1 sh4 ch2 sh3 s (RLInject d bs) = Some s' ->
+  exists c p, r_trelay s = Some c /\ r_tconnected s = true /\ nth_error (r_pairs s) c = Some p /\
+    p_first p = Some ch1 /\ p_sfirst p = Some sh3.
+Proof. exact (rt_inject_only_adopted ch1 sh4 ch2 sh3). Qed.
+
+(* the pair that lost the swap (both sides authenticated, both answered): its two channels are closed and
+   were never used, no pump was started, and each writer goroutine has closed its connection or does so
+   by its next step — unlike transfer.go's acceptOnTunnel, which leaves a losing connection open *)
+Theorem C17_relay_loser_closed : forall s c p, rt_reach ch1 sh4 ch2 sh3 s -> nth_error (r_pairs s) c = Some p ->
+  p_pc p = RtDone RoLost ->
+  exists b, p_br p = Some b /\ p_won p = None /\ r_trelay s <> Some c /\
+    forall d, h_chan (rt_half_of d b) = [] /\ h_log (rt_half_of d b) = [] /\ h_chan_closed (rt_half_of d b) = true /\
+              h_pump (rt_half_of d b) = PmNone /\
+              ((h_writer (rt_half_of d b) = false /\ option_map e_closed (rt_dst_end d p) = Some true) \/
+               (exists s' p' e', rt_step ch1 sh4 ch2 sh3 s (RLWriter c d) = Some s' /\ nth_error (r_pairs s') c = Some p' /\
+                  rt_dst_end d p' = Some e' /\ e_closed e' = true /\
+                  option_map e_tx (rt_dst_end d p') = Some (match d with RdIn => ch2 | RdOut => sh4 end))).
+Proof. exact (rt_loser_closed ch1 sh4 ch2 sh3). Qed.
+
+(* OBSERVATION, outside the listed properties (DESIGN 10.3): a pump of a bridge whose own connection has been
+   closed by the relay itself — which the writer goroutine of the opposite direction does when its channel is
+   closed — stays in its loop for ever, whatever anybody does, and its next iteration is always enabled:
+   Read returns (0, net.ErrClosed), only io.EOF leaves the loop *)
+Theorem C17_relay_obs_pump_spins_for_ever : forall ls s s' c d, rt_reach ch1 sh4 ch2 sh3 s -> rt_spinning s c d ->
+  rt_run ch1 sh4 ch2 sh3 s ls = Some s' ->
+  rt_spinning s' c d /\ rt_step ch1 sh4 ch2 sh3 s' (RLPumpSpin c d) = Some s'.
+Proof. exact (rt_spins_for_ever ch1 sh4 ch2 sh3). Qed.
+
+End Relay.
+
+Print Assumptions C17_relay_adopted_authenticated.
+Print Assumptions C17_relay_adopted_exists.
+Print Assumptions C17_relay_current_adopted.
+Print Assumptions C17_relay_at_most_one.
+Print Assumptions C17_relay_adoption_stable.
+Print Assumptions C17_relay_unauth_client.
+Print Assumptions C17_relay_unauth_client_next.
+Print Assumptions C17_relay_unauth_server.
+Print Assumptions C17_relay_unauth_server_next.
+Print Assumptions C17_relay_bridge_bytes.
+Print Assumptions C17_relay_pumps_only_adopted.
+Print Assumptions C17_relay_parked_from_adopted.
+Print Assumptions C17_relay_inject_only_adopted.
+Print Assumptions C17_relay_loser_closed.
+Print Assumptions C17_relay_obs_pump_spins_for_ever.
+
+(* the trigger's port rewrite is what makes the client's hello match: listenForTunnel replaces the first
+   `:<id>:<server port>` of the buffer (and, in turn, every later one) by `:<id>:<relay port>` and keeps
+   everything in front of it; the relay expects the hello for (id, relay port) (ch1 above, pinned by
+   C17_relay_skeleton: getHelloConstant(r.trigger.uniqueID, r.tunnelRelayPort)); and a client that computed its
+   hello from the port the SERVER announced would be turned away, as would a server answering for the relay's
+   port *)
+Theorem C17_relay_rewrite : forall uid sport rport pre post,
+  (forall i, (i < length pre)%nat ->
+     rt_is_prefix (rt_port_tag uid sport) (skipn i (pre ++ rt_port_tag uid sport ++ post)) = false) ->
+  rt_rewrite uid sport rport (pre ++ rt_port_tag uid sport ++ post) =
+  pre ++ rt_port_tag uid rport ++ rt_rewrite uid sport rport post.
+Proof. exact rt_rewrite_first. Qed.
+Print Assumptions C17_relay_rewrite.
+
+Theorem C17_relay_unrewritten_rejected : forall uid sport rport,
+  forallb is_digit (cut_uid uid) = true -> sport <> rport ->
+  hello_matches (client_hello uid sport) (client_hello uid rport) = false /\
+  hello_matches (server_hello uid rport) (server_hello uid sport) = false.
+Proof. exact rt_unrewritten_rejected. Qed.
+Print Assumptions C17_relay_unrewritten_rejected.
+
+Theorem C17_relay_skeleton :
+  rt_set_tunnel_connector_skel = expected_rt_set_tunnel_connector /\
+  rt_listen_for_tunnel_skel = expected_rt_listen_for_tunnel /\
+  rt_accept_on_tunnel_skel = expected_rt_accept_on_tunnel /\
+  rt_handle_tunnel_conn_skel = expected_rt_handle_tunnel_conn /\
+  rt_new_tunnel_relay_skel = expected_rt_new_tunnel_relay /\
+  rt_wrap_input_skel = expected_rt_wrap_input /\
+  rt_wrap_output_skel = expected_rt_wrap_output /\
+  rt_reset_to_standby_skel = expected_rt_reset_to_standby /\
+  rt_sites_bufchan_send = expected_rt_sites_bufchan_send /\
+  rt_sites_atomic_writes = expected_rt_sites_atomic_writes /\
+  rt_sites_plain_writes = expected_rt_sites_plain_writes /\
+  rt_sites_starts = expected_rt_sites_starts.
+Proof. exact rt_skel_matches. Qed.
+Print Assumptions C17_relay_skeleton.
+
+(* ---- non-vacuity, the refuted stronger statement, the stated limits ---- *)
+
+(* an intruder with the right prefix and a wrong id (0), the genuine client (1), a second authenticated
+   client (2): 0 is closed unanswered and no server connection was made for it; 1 is adopted, "#A" crosses
+   to its server connection, "#B" back, the relay's own "#C" follows; 2 was answered, lost the swap, and
+   BOTH its connections have been closed with nothing but the hellos on them *)
+Example C17_relay_nonvacuous :
+  exists ls s p0 p1 p2 e1 e2, rt_run exr_ch1 exr_sh4 exr_ch2 exr_sh3 rt_init ls = Some s /\
+    r_pairs s = [p0; p1; p2] /\ r_trelay s = Some 1%nat /\
+    rt_observe_cli p0 = RtObsClosedSilent /\ p_srv p0 = None /\
+    rt_observe_cli p1 = RtObsGot (exr_sh4 ++ [35; 66]) false /\ p_srv p1 = Some e1 /\
+    rt_observe_end e1 = RtObsGot (exr_ch2 ++ [35; 65; 35; 67]) false /\
+    rt_observe_cli p2 = RtObsGot exr_sh4 true /\ p_srv p2 = Some e2 /\ rt_observe_end e2 = RtObsGot exr_ch2 true /\
+    p_pc p2 = RtDone RoLost.
+Proof.
+  exists ([RLConnect [PWrite (client_hello [57; 57; 57; 57; 57; 57; 57; 57; 57; 57; 57; 50; 48] exr_rport)];
+           RLConnect [PWrite exr_ch1; PWrite [35; 65]]; RLConnect [PWrite exr_ch1];
+           RLAccept 0; RLCheck; RLAccept 1; RLCheck; RLAccept 2; RLCheck;
+           RLPeerC 0; RLPeerC 1; RLPeerC 2; exr_H 0; exr_H 0; exr_H 0]
+          ++ exr_greet 1 [PWrite exr_sh3; PWrite [35; 66]] ++ exr_greet 2 [PWrite exr_sh3]
+          ++ [exr_H 1; exr_H 1; exr_H 1; exr_H 1; exr_H 1; exr_H 2; exr_H 2; exr_H 2; RLWriter 2 RdIn; RLWriter 2 RdOut;
+              RLPeerC 1; RLPump 1 RdIn 2 false; RLWriter 1 RdIn; RLPeerS 1; RLPump 1 RdOut 2 false; RLWriter 1 RdOut;
+              RLActFlag true; RLInject RdIn [35; 67]; RLWriter 1 RdIn; RLAcceptErr]).
+  vm_compute. do 6 eexists. repeat split.
+Qed.
+
+(* "at most one bridge is EVER adopted" is false for the relay object as a whole, and the model says so: a
+   client that connected before the listener was closed and greets only after resetToStandby still finds
+   tunnelRelay == nil, and — if the connector still reaches somebody who answers with the server's hello,
+   i.e. somebody who knows id and server port — wins a second compare-and-swap.  Both pairs are authenticated
+   on both sides (C17_relay_adopted_authenticated), they are adopted in different eras (C17_relay_at_most_one),
+   and the second bridge only joins its own two connections (C17_relay_bridge_bytes). *)
+Definition C17_relay_at_most_one_ever_full : Prop :=
+  forall s c1 c2 p1 p2, rt_reach exr_ch1 exr_sh4 exr_ch2 exr_sh3 s ->
+    nth_error (r_pairs s) c1 = Some p1 -> nth_error (r_pairs s) c2 = Some p2 ->
+    p_won p1 <> None -> p_won p2 <> None -> c1 = c2.
+
+Theorem C17_relay_at_most_one_ever_refuted :
+  exists ls s p0 p1, rt_run exr_ch1 exr_sh4 exr_ch2 exr_sh3 rt_init ls = Some s /\
+    r_pairs s = [p0; p1] /\ p_won p0 = Some 0%nat /\ p_won p1 = Some 1%nat /\ r_trelay s = Some 1%nat.
+Proof. exact rt_at_most_one_ever_refuted. Qed.
+Print Assumptions C17_relay_at_most_one_ever_refuted.
+
+Theorem C17_relay_at_most_one_ever_full_is_false : ~ C17_relay_at_most_one_ever_full.
+Proof. exact rt_at_most_one_ever_false. Qed.
+Print Assumptions C17_relay_at_most_one_ever_full_is_false.
+
+(* limit (a window of a few instructions, not observed): a reset between a handler's successful swap and its
+   `tr.relay.Store(r)` leaves a bridge that is no longer in tunnelRelay with its back-pointer set; its pump then
+   hands what its (authenticated) client sends to the relay's handshake buffer although no pair is adopted *)
+Example C17_relay_stale_backpointer_reachable :
+  exists ls s, rt_run exr_ch1 exr_sh4 exr_ch2 exr_sh3 rt_init ls = Some s /\
+    r_trelay s = None /\ r_parked s = [(RsCli 0%nat, [35; 65])].
+Proof.
+  exists ([RLConnect [PWrite exr_ch1; PWrite [35; 65]]; RLAccept 0; RLCheck; RLPeerC 0] ++ exr_greet 0 [PWrite exr_sh3]
+          ++ [exr_H 0; RLReset; exr_H 0; exr_H 0; exr_H 0; exr_H 0; RLPeerC 0; RLPump 0 RdIn 2 true]).
+  vm_compute. eexists. repeat split.
+Qed.
+
+(* the busy loop is reachable by the ordinary end of a session: the client closes, wrapInput sees io.EOF and
+   waits for the reset, leaves, its deferred close(clientBufChan) ends the writer, whose deferred
+   serverConn.Close() closes the connection wrapOutput is reading *)
+Example C17_relay_obs_spin_reachable :
+  exists ls s, rt_run exr_ch1 exr_sh4 exr_ch2 exr_sh3 rt_init ls = Some s /\ rt_spinning s 0%nat RdOut.
+Proof.
+  exists ([RLConnect [PWrite exr_ch1; PClose]; RLAccept 0; RLCheck; RLPeerC 0] ++ exr_greet 0 [PWrite exr_sh3]
+          ++ [exr_H 0; exr_H 0; exr_H 0; exr_H 0; exr_H 0; RLPeerC 0; RLPumpEof 0 RdIn; RLReset; RLPumpExit 0 RdIn; RLWriter 0 RdIn]).
+  vm_compute. eexists. split; [reflexivity|]. unfold rt_spinning. do 3 eexists. repeat split.
+Qed.
+
+(* the rewrite on a relayed trigger line, and the hello the client then computes *)
+Example C17_relay_rewrite_example :
+  let trig p := [58; 58; 84; 82; 90; 83; 90; 58; 84; 82; 65; 78; 83; 70; 69; 82; 58; 82; 58; 49; 46; 49; 46; 56]
+                  ++ rt_port_tag exr_uid p ++ [35; 82; 13; 10] in
+  rt_rewrite exr_uid exr_sport exr_rport (trig exr_sport) = trig exr_rport /\
+  hello_matches (client_hello exr_uid exr_rport) exr_ch1 = true /\
+  hello_matches (client_hello exr_uid exr_sport) exr_ch1 = false.
 Proof. vm_compute. repeat split. Qed.
